@@ -184,7 +184,7 @@ Ltac kep_path e mexpr fR He Hm Hf F1 F2 F3 :=
   pyrunv_using ltac:(first [exact G2 | lra1]);
   angle_arg; rewrite Angle_new_rad by exact G1;
   pyrunv_using ltac:(first [exact G2 | lra1]);
-  rewrite bind_ok by reflexivity; cbv beta;
+  try (rewrite bind_ok by reflexivity; cbv beta);
   angle_arg; rewrite Angle_new_rad by apply atan_deg_bound;
   pyrunv_using ltac:(first [exact G2 | lra1]);
   reflexivity.
